@@ -173,8 +173,12 @@ func confirms(v interp.Violation, nr nativeResult) bool {
 			return contains(nr.Known, v.Known+"|"+v.ID)
 		}
 		return contains(nr.Failed, v.ID)
-	case "panic", "deadlock":
+	case "panic":
 		return nr.Panic != ""
+	case "deadlock":
+		// natively a call that never returns shows up as a panic (test timeout) or as the
+		// harness's own watchdog assertion
+		return nr.Panic != "" || len(nr.Failed) > 0
 	}
 	return false
 }
